@@ -35,6 +35,18 @@
 //! Two defects of the unchanged tree in that area are recorded as known findings under signatures
 //! with a structural precondition (findings/C06-overflow-release-of-held-key-deferred.md,
 //! findings/C06-deferred-release-list-overflow.md).
+//! Part 5 (exhaustive, seed-independent; c06_nonkey.rs): the keys that FOLLOW the one-shot are not
+//! key-code keys. ONE one-shot key (lctl, output chord C-lalt, layer-while-held), TWO follower keys
+//! whose action is a custom action (mouse button, mouse button tap, wheel, mouse movement, unicode,
+//! arbitrary-code, caps-word, unshift / unmod) or another non-key action (layer-while-held, XX,
+//! macro, layer-switch, output chord, release-key) - 14 kinds, every kind next to two others - and
+//! ONE plain key. The one-shot key is tapped or held; then EVERY sequence of 2..=4 (thorough: 5 for
+//! T=3) presses and releases of the three other keys follows, so every kind is the first, the second
+//! and the third following key, overlapping and released in any order, all four end variants. Judged
+//! per tick by the reference model, in which such a key is "another key" exactly like a plain one, on
+//! the one-shot's own key codes and the plain key's outputs; and without the model off the OS
+//! stream: what every follower press that shows in the output (plain key, button down, wheel /
+//! movement event, unicode, arbitrary code, the key of unshift / of the output chord) meets.
 
 use super::c04::util::*;
 use crate::core::rng::Rng;
@@ -48,6 +60,8 @@ pub static C06: C06Check = C06Check;
 
 #[path = "c06_restack.rs"]
 mod restack;
+#[path = "c06_nonkey.rs"]
+mod nonkey;
 
 // ------------------------------------------------------------------ configuration description
 
@@ -91,6 +105,10 @@ pub enum Role {
     OsLayer,
     /// plain key: output on the base layer, output on l1
     Plain(&'static str, &'static str),
+    /// an ordinary (non-one-shot) key whose action is not a key code: custom action (mouse button,
+    /// wheel, unicode, ...), layer-while-held, no-op, macro ... It writes none of the judged key codes
+    /// but is "another key" for every one-shot (part 5)
+    NonKey,
 }
 
 #[derive(Clone, Debug)]
@@ -131,6 +149,7 @@ fn render_os(end: End, alias: bool, t: u16, r: &Role) -> String {
         }
         Role::OsLayer => format!("({} {t} (layer-while-held l1))", end.name(alias)),
         Role::Plain(b, _) => b.to_string(),
+        Role::NonKey => "XX".to_string(),
     }
 }
 
@@ -176,7 +195,7 @@ enum StK {
 
 pub struct Model {
     p: P,
-    roles: [Role; 3],
+    roles: Vec<Role>,
     q: VecDeque<(bool, usize)>,
     pause: u16,
     st: Vec<(usize, StK)>,
@@ -199,7 +218,12 @@ pub struct Model {
 
 impl Model {
     pub fn new(p: P) -> Self {
-        let roles = p.roles();
+        let roles = p.roles().to_vec();
+        Self::with_roles(p, roles)
+    }
+    /// the same model over any number of physical keys (part 5: one-shot key, two followers of any
+    /// kind, one plain key)
+    pub fn with_roles(p: P, roles: Vec<Role>) -> Self {
         Model { p, roles, q: VecDeque::new(), pause: 0, st: vec![], diff: OsDiff::default(), keys: VecDeque::new(), released: VecDeque::new(), other: VecDeque::new(), timeout: 0, rel_next: false, ends_by_timeout: 0, ends_by_input: 0, max_stack: 0, activations: 0, ends_by_later_follower_release: 0, preheld_releases_ignored: 0 }
     }
     pub fn push(&mut self, press: bool, c: usize) {
@@ -273,20 +297,26 @@ impl Model {
                     Role::Plain(base, alt) => {
                         let on_layer = self.st.iter().any(|s| s.1 == StK::Layer);
                         self.st.push((c, StK::Key(kc(if on_layer { alt } else { base }))));
-                        if !self.keys.is_empty() {
-                            if self.p.end.is_press() {
-                                self.timeout = self.timeout.min(self.p.red);
-                                self.pause = self.p.red;
-                            } else {
-                                self.other.push_back(c);
-                            }
-                        }
+                        self.other_key_pressed(c);
                     }
+                    // "another key" whatever its action is
+                    Role::NonKey => self.other_key_pressed(c),
                 }
             }
         }
         let cur: Vec<u16> = self.st.iter().filter_map(|s| if let StK::Key(k) = s.1 { Some(k) } else { None }).collect();
         self.diff.step(&cur)
+    }
+    /// the press of a key that is not a one-shot key, while `keys` one-shots are active
+    fn other_key_pressed(&mut self, c: usize) {
+        if !self.keys.is_empty() {
+            if self.p.end.is_press() {
+                self.timeout = self.timeout.min(self.p.red);
+                self.pause = self.p.red;
+            } else {
+                self.other.push_back(c);
+            }
+        }
     }
     fn os_pressed(&mut self, c: usize) {
         self.activations += 1;
@@ -463,7 +493,7 @@ fn proc_ticks(keys: &[usize], gaps: &[usize], gv: &[u32]) -> Vec<u64> {
 fn family_check(p: &P, keys: &[usize], gaps: &[usize], gv: &[u32], outs: &[OutEv]) -> Option<(&'static str, Result<(), Bad>)> {
     let roles = p.roles();
     let t = p.t as u64;
-    let is_os = |k: usize| !matches!(roles[k], Role::Plain(..));
+    let is_os = |k: usize| matches!(roles[k], Role::OsKeys(_) | Role::OsLayer);
     let plain_codes: Vec<u16> = roles.iter().flat_map(|r| if let Role::Plain(b, a) = r { vec![kc(b), kc(a)] } else { vec![] }).collect();
     let pr = proc_ticks(keys, gaps, gv);
     let ctx = presses_with_context(outs, &plain_codes);
@@ -1475,7 +1505,7 @@ impl Check for C06Check {
         "C06"
     }
     fn n_cases(&self, ctx: &Ctx) -> u64 {
-        n_exh_cases(ctx.tier) + n_random(ctx.tier) + n_fol_cases(ctx.tier) + n_restack_cases(ctx.tier)
+        n_exh_cases(ctx.tier) + n_random(ctx.tier) + n_fol_cases(ctx.tier) + n_restack_cases(ctx.tier) + nonkey::n_cases5(ctx.tier)
     }
     fn describe(&self, ctx: &Ctx, idx: u64) -> Value {
         if idx < n_exh_cases(ctx.tier) {
@@ -1484,6 +1514,11 @@ impl Check for C06Check {
         } else if idx < n_exh_cases(ctx.tier) + n_random(ctx.tier) {
             let pl = plan2(ctx.seed, idx);
             json!({"part": "stacked", "config": pl.cfg.render(), "history": render_hist(&pl.hist)})
+        } else if idx >= n_exh_cases(ctx.tier) + n_random(ctx.tier) + n_fol_cases(ctx.tier) + n_restack_cases(ctx.tier) {
+            let j = idx - n_exh_cases(ctx.tier) - n_random(ctx.tier) - n_fol_cases(ctx.tier) - n_restack_cases(ctx.tier);
+            let np = nonkey::n_prefix(ctx.tier);
+            let cfg = nonkey::param_sets5(ctx.tier)[(j / np) as usize].clone();
+            json!({"part": "non-key followers", "config": cfg.render(), "followers": [cfg.fk[0].name(), cfg.fk[1].name(), "plain"], "prefix": nonkey::PREFIX_NAMES[(j % np) as usize], "max_follow_up_events": nonkey::k_max(ctx.tier, &cfg)})
         } else if idx >= n_exh_cases(ctx.tier) + n_random(ctx.tier) + n_fol_cases(ctx.tier) {
             let case = idx - n_exh_cases(ctx.tier) - n_random(ctx.tier) - n_fol_cases(ctx.tier);
             let pl = restack::plan4(ctx.seed, ctx.tier, case, 0);
@@ -1505,13 +1540,15 @@ impl Check for C06Check {
             self.run_stacked(ctx, idx, &mut out);
         } else if idx < n2 + n_fol_cases(ctx.tier) {
             self.run_followers(ctx, idx - n2, &mut out);
-        } else {
+        } else if idx < n2 + n_fol_cases(ctx.tier) + n_restack_cases(ctx.tier) {
             self.run_restack(ctx, idx - n2 - n_fol_cases(ctx.tier), &mut out);
+        } else {
+            self.run_nonkey(ctx, idx - n2 - n_fol_cases(ctx.tier) - n_restack_cases(ctx.tier), &mut out);
         }
         out
     }
     fn rule(&self) -> String {
-        "Part 1 (exhaustive, seed-independent): physical keys a b c in three shapes (two one-shot keys lsft / lctl + plain c; one-shot layer-while-held + two plain keys with distinct outputs per layer; one-shot output chord C-lalt + one-shot layer + plain c), all one-shot keys of one end variant; 4 variants x T in {3,80} (thorough {2,3,9,80}) x rapid-event-delay {5,0,1}; EVERY physically consistent schedule of 2..=N events (N = 5 for small T, 4 for T=80 plus the five-event family schedules, in quick; 6 / 5 in thorough) with every gap in {0,1,T-1,T,T+1}; keys still down are released T+4 ticks after the last event. Judged: per-tick equality with the one-shot reference model; nothing down / active / queued after the drain; and on the schedule families (tap, key, key-again), (tap alone), (hold, key, key, release), (tap, tap again, key), (tap, tap other one-shot, key) the statement is read directly off the OS stream: 'modified' = the one-shot's keys are down when the key's press is written (key / chord) or the key resolved on the one-shot layer. Part 2 (random, invariants only): 20 one-shot keys (keys, chords, two layers; one variant or mixed variants) + 2 plain keys, T in {30,200}; 17-40 one-shot taps in a row, then key, second key, and a probe key long after the timeout: the first key must see exactly the 16 most recent one-shots when the taps were distinct, the second key and the probe must be plain, nothing may be down, active or queued at the end, no crash; in a third of the histories the two plain keys overlap instead (first key down, second key down, second key released, second key pressed again, released, first key released) and that second press of the second key must be plain (the one-shots ended at the first key's press or at the second key's release, whatever the variant). Part 3 (exhaustive, seed-independent): shapes with ONE one-shot key (lsft; layer-while-held; output chord C-lalt) and TWO plain keys b c, 4 variants x T in {3,80} (thorough {2,3,9,80}) x rapid-event-delay {5,0,1}; prefix = one-shot tapped with its release 0 or 1 ticks later / one-shot held until the end / b pressed one tick before the one-shot is tapped; then EVERY sequence of 2..=K events (K = 5 quick, 6 thorough) over the two plain keys (each event toggles its key: all press/release interleavings incl. later-pressed-released-first, earlier-pressed-released-first, re-presses), first follow-up event after every gap in {0,1,T-1,T,T+1}, every other one after every gap in {0,1,rapid-event-delay+1}; keys still down are released T+4 ticks after the last event. Judged: per-tick equality with the reference model, whose release variants end in the tick after the first release of ANY key pressed after the one-shot (not only the first-pressed one) and never at the release of a key held since before it; clean end; and families (g)/(h) read off the OS stream without the model: one-shot held -> every follow-up press modified; tapped -> first follow-up press modified iff processed before tick x+T (x = tick of the one-shot press); press variants: no later press modified; release variants: a press before the first release of a key pressed after the one-shot is modified iff in time, a press after that release is never modified. (g)/(h) are also applied to every part-1 schedule of this form. Part 4 (systematic in its structure, seed-dependent in gaps / random orders): physical keys a b c = three one-shot keys of one end variant with timeouts T, T+5, T+11 (assignments lsft | C-lalt | ralt; layer l1 | lsft | C-lalt; C-lalt | layer l1 | layer l2) + plain keys u v with distinct outputs per layer; 4 variants x T in {20,200} x rapid-event-delay {5,0,1} x the first 1, 2 or 3 one-shot keys used; for every total of 15,16,17,18,19,20,33 presses (thorough: every total 14..=40, four gap streams) x order {round-robin, random, blocks of 1-9, one key for all but the last 15 presses and the others in turn for those} x ending {tap/in-time, tap/late, held/in-time, held/late}: the keys are pressed that often in a row, press-to-release gap 0-2, release-to-press gap 0-3 ticks (the driver lets time pass until nothing is queued before every press, so every press is within the timeout of the previous one and meets a table that saw everything before it); then the first plain key 1-3 ticks later (in time) or timeout+3.. ticks later (late), released after 1-12 ticks, the second plain key rapid-event-delay+3.. ticks later, with a held ending the release of the one-shot key after that, and a probe key long after the timeout. Judged off the OS stream, no model of kanata involved except that the table holds 16 entries: expected active set = keys among the 16 most recent presses (non-pcancel; every press stacks) / the keys pressed since the last re-press of an active key (pcancel; a re-press ends everything); first key = exactly that set's key codes held and the most recently pressed active layer (late: nothing), plus the held key's own; second key and probe: only the held key's; with a held ending the held key's codes must be down from the tick its press was processed until its physical release; nothing down, active or queued at the end; all three plain presses written. distinct_nontrivial = (parameter set, key sequence) for parts 1 and 3, (variant, T, delay, taps, distinct) for part 2, (keys used, parameter set, presses, order, ending, active entry pushed out) for part 4.".into()
+        "Part 1 (exhaustive, seed-independent): physical keys a b c in three shapes (two one-shot keys lsft / lctl + plain c; one-shot layer-while-held + two plain keys with distinct outputs per layer; one-shot output chord C-lalt + one-shot layer + plain c), all one-shot keys of one end variant; 4 variants x T in {3,80} (thorough {2,3,9,80}) x rapid-event-delay {5,0,1}; EVERY physically consistent schedule of 2..=N events (N = 5 for small T, 4 for T=80 plus the five-event family schedules, in quick; 6 / 5 in thorough) with every gap in {0,1,T-1,T,T+1}; keys still down are released T+4 ticks after the last event. Judged: per-tick equality with the one-shot reference model; nothing down / active / queued after the drain; and on the schedule families (tap, key, key-again), (tap alone), (hold, key, key, release), (tap, tap again, key), (tap, tap other one-shot, key) the statement is read directly off the OS stream: 'modified' = the one-shot's keys are down when the key's press is written (key / chord) or the key resolved on the one-shot layer. Part 2 (random, invariants only): 20 one-shot keys (keys, chords, two layers; one variant or mixed variants) + 2 plain keys, T in {30,200}; 17-40 one-shot taps in a row, then key, second key, and a probe key long after the timeout: the first key must see exactly the 16 most recent one-shots when the taps were distinct, the second key and the probe must be plain, nothing may be down, active or queued at the end, no crash; in a third of the histories the two plain keys overlap instead (first key down, second key down, second key released, second key pressed again, released, first key released) and that second press of the second key must be plain (the one-shots ended at the first key's press or at the second key's release, whatever the variant). Part 3 (exhaustive, seed-independent): shapes with ONE one-shot key (lsft; layer-while-held; output chord C-lalt) and TWO plain keys b c, 4 variants x T in {3,80} (thorough {2,3,9,80}) x rapid-event-delay {5,0,1}; prefix = one-shot tapped with its release 0 or 1 ticks later / one-shot held until the end / b pressed one tick before the one-shot is tapped; then EVERY sequence of 2..=K events (K = 5 quick, 6 thorough) over the two plain keys (each event toggles its key: all press/release interleavings incl. later-pressed-released-first, earlier-pressed-released-first, re-presses), first follow-up event after every gap in {0,1,T-1,T,T+1}, every other one after every gap in {0,1,rapid-event-delay+1}; keys still down are released T+4 ticks after the last event. Judged: per-tick equality with the reference model, whose release variants end in the tick after the first release of ANY key pressed after the one-shot (not only the first-pressed one) and never at the release of a key held since before it; clean end; and families (g)/(h) read off the OS stream without the model: one-shot held -> every follow-up press modified; tapped -> first follow-up press modified iff processed before tick x+T (x = tick of the one-shot press); press variants: no later press modified; release variants: a press before the first release of a key pressed after the one-shot is modified iff in time, a press after that release is never modified. (g)/(h) are also applied to every part-1 schedule of this form. Part 4 (systematic in its structure, seed-dependent in gaps / random orders): physical keys a b c = three one-shot keys of one end variant with timeouts T, T+5, T+11 (assignments lsft | C-lalt | ralt; layer l1 | lsft | C-lalt; C-lalt | layer l1 | layer l2) + plain keys u v with distinct outputs per layer; 4 variants x T in {20,200} x rapid-event-delay {5,0,1} x the first 1, 2 or 3 one-shot keys used; for every total of 15,16,17,18,19,20,33 presses (thorough: every total 14..=40, four gap streams) x order {round-robin, random, blocks of 1-9, one key for all but the last 15 presses and the others in turn for those} x ending {tap/in-time, tap/late, held/in-time, held/late}: the keys are pressed that often in a row, press-to-release gap 0-2, release-to-press gap 0-3 ticks (the driver lets time pass until nothing is queued before every press, so every press is within the timeout of the previous one and meets a table that saw everything before it); then the first plain key 1-3 ticks later (in time) or timeout+3.. ticks later (late), released after 1-12 ticks, the second plain key rapid-event-delay+3.. ticks later, with a held ending the release of the one-shot key after that, and a probe key long after the timeout. Judged off the OS stream, no model of kanata involved except that the table holds 16 entries: expected active set = keys among the 16 most recent presses (non-pcancel; every press stacks) / the keys pressed since the last re-press of an active key (pcancel; a re-press ends everything); first key = exactly that set's key codes held and the most recently pressed active layer (late: nothing), plus the held key's own; second key and probe: only the held key's; with a held ending the held key's codes must be down from the tick its press was processed until its physical release; nothing down, active or queued at the end; all three plain presses written. Part 5 (exhaustive, seed-independent): physical keys a b c d; a = one one-shot key (lctl | layer-while-held l1 | output chord C-lalt), b and c = two follower keys that are not key-code keys, of the 14 kinds mlft, XX, (unicode e-acute), (layer-while-held l2) with l2 all transparent, (mwheel-up 5000 120), (caps-word 8), (arbitrary-code 700), (macro T+10 y), (unshift x) / with a one-shot layer (unmod x), (layer-switch l0), (movemouse-left 5000 1), S-1, mrtp, (release-key rsft) - each kind as b next to its successor in that list as c (thorough: also next to the fifth after it) -, d = plain key d (4 on l1); 4 variants x T in {3,20} (thorough {3,9,80}) x rapid-event-delay {5,0,1}. Prefix = one-shot key tapped (release in the same tick; thorough also one tick later) or held to the end; then EVERY sequence of 2..=4 events over b c d (each event toggles its key; thorough: up to 5 events for T=3 and the first series of pairs), the first follow-up event after every gap in {1,T-1,T} (thorough with 4 events: also T+1), every other one after every gap in {0,rapid-event-delay+1}; keys still down are released T+4 ticks after the last event. Judged: (1) per-tick equality with the reference model, in which b and c are 'another key' like any plain key (press variants end rapid-event-delay ticks after the press of the first key of any kind and pause input meanwhile, release variants end in the tick after the first release of any key pressed after the one-shot), on the one-shot's key codes and the outputs of d; (2) model-free off the OS stream, for every follower press that shows in the output in the tick it is processed (d; button down; wheel, movement, unicode event; arbitrary code press; x of unshift; 1 of S-1): held one-shot -> the one-shot's key codes are down around it; tapped -> the first following key of ANY kind (visible or not) is modified iff processed before tick x+T, press variants: no later key, release variants: keys pressed before the first release of any follower iff in time, keys pressed after it never; with a one-shot layer only d shows the layer (4 instead of d); the visible presses appear in schedule order and no other one appears; (3) nothing down, active, queued, running (kanata idle) at the end; no output that no key of the configuration produces; nothing pressed twice. distinct_nontrivial = (parameter set, key sequence) for parts 1, 3 and 5, (variant, T, delay, taps, distinct) for part 2, (keys used, parameter set, presses, order, ending, active entry pushed out) for part 4.".into()
     }
     fn assumptions(&self) -> Vec<String> {
         vec![
@@ -1526,6 +1563,10 @@ impl Check for C06Check {
             "part 4: the table of active one-shots holds the 16 most recent presses (same convention as part 2: a key none of whose presses is among them is no longer expected to apply) and the layout holds 64 key / layer states: histories are cut so that the pressed one-shot keys hold at most 56 key codes / layers at a time (33 presses of a two-key chord become 28)".into(),
             "part 4, recorded defects of the unchanged tree (known findings, each under a signature whose precondition is computed from the history alone): (1) the last press is held, it is at least the 17th, and the table entry it pushes out belongs to the same key -> the held key goes up when the one-shot ends; judged as known only if the key stays down as long as the one-shot is active (a key that goes up earlier has the live signature held-key-up-while-one-shot-active); (2) more than 16 releases are deferred (physical releases of tapped keys + one per pushed-out entry of a still active key) -> the key whose deferred release is the oldest loses its state; judged as known only if the first key shows exactly the expected set minus those keys and every such key kept its key codes down until the press of the tap that made the list overflow went in (a key that goes up earlier has the live signature first-key-misses-active-one-shots)".into(),
             "part 4 does not hold a one-shot key from the start of the stack while others are tapped 16 times (the pushed-out entry of a physically held key), and does not mix variants".into(),
+            "part 5: a key of any action kind is 'another key' for a one-shot (guide: 'end on the first press of another key', 'on the first release of a newly pressed key'); that covers XX, which the guide describes as 'pressing the key will do nothing' - the code ends the one-shot on it like on any key, and the check expects that".into(),
+            "part 5: the keys a macro plays count as key presses and releases of their own for a one-shot (deliberately so in keyberon, the guide is silent): a release variant ends when a macro releases its first key, not only when the macro key is released, and the press of the macro's first key is one more 'press of another key'. The macro follower therefore starts with a delay of T+10 ticks: the keys it plays arrive when the one-shot is over in every schedule, and the macro KEY is judged like any other key".into(),
+            "part 5: 'modified' for an output that is not a key press (button, wheel, movement, unicode, arbitrary code) is judged per tick: the one-shot's key codes down before and after the tick = modified, up before and after = unmodified; an output in the very tick in which the one-shot's keys go up or down is not judged (counter nonkey_visible_press_in_the_tick_the_one_shot_ends_not_judged); the order of key and non-key outputs within one tick is not judged. Followers that write key codes of their own (x of unshift, shift and 1 of S-1, y of the macro, shift added by caps-word) are chosen disjoint from the one-shot's key codes; with one-shots of key codes the follower is unshift (touches the shift keys only) so that the one-shot's modifiers stay observable, the general unmod is used with the one-shot layer".into(),
+            "part 5 has one one-shot key per configuration (stacks followed by non-key keys are not generated), no tap-hold / tap-dance / chord / switch followers (their action is decided later than the press), no fake-key, repeat, sequence-leader, dynamic-macro, cmd or live-reload followers".into(),
             "one kanata instance runs all schedules of an exhaustive case, each followed by a drain until the model is quiescent; a disagreement is re-judged on a fresh instance".into(),
         ]
     }
@@ -1572,6 +1613,57 @@ impl Check for C06Check {
             ("restack_ending:tap-late", 4_000),
             ("restack_ending:held-in-time", 4_000),
             ("restack_ending:held-late", 4_000),
+            ("nonkey_schedules", ctx.tier.sel(4_000_000, 20_000_000)),
+            ("nonkey_statement_checks", ctx.tier.sel(4_000_000, 20_000_000)),
+            ("nonkey_visible_follower_press_checks", 5_000_000),
+            ("nonkey_visible_non_key_output_checks", 1_000_000),
+            ("nonkey_held_one_shot_schedules", 1_000_000),
+            ("nonkey_one_shots_ended_by_input", 1_000_000),
+            ("nonkey_one_shots_ended_by_timeout", 1_000_000),
+            ("nonkey_press_variant_ended_by_press_of_custom_action_key", 200_000),
+            ("nonkey_press_variant_ended_by_press_of_non_key_follower", 400_000),
+            ("nonkey_release_variant_ended_by_release_of_custom_action_key", 40_000),
+            ("nonkey_release_variant_ended_by_release_of_non_key_follower", 80_000),
+            ("nonkey_release_variant_ended_by_release_of_later_pressed_follower", 40_000),
+            ("nonkey_press_variant_ended_by_press_of:mouse-button", 30_000),
+            ("nonkey_press_variant_ended_by_press_of:mouse-button-tap", 30_000),
+            ("nonkey_press_variant_ended_by_press_of:mouse-wheel", 30_000),
+            ("nonkey_press_variant_ended_by_press_of:mouse-move", 30_000),
+            ("nonkey_press_variant_ended_by_press_of:unicode", 30_000),
+            ("nonkey_press_variant_ended_by_press_of:arbitrary-code", 30_000),
+            ("nonkey_press_variant_ended_by_press_of:caps-word", 30_000),
+            ("nonkey_press_variant_ended_by_press_of:unmod", 30_000),
+            ("nonkey_press_variant_ended_by_press_of:layer-while-held", 30_000),
+            ("nonkey_press_variant_ended_by_press_of:layer-switch", 30_000),
+            ("nonkey_press_variant_ended_by_press_of:no-op", 30_000),
+            ("nonkey_press_variant_ended_by_press_of:macro", 30_000),
+            ("nonkey_press_variant_ended_by_press_of:output-chord", 30_000),
+            ("nonkey_press_variant_ended_by_press_of:release-key", 30_000),
+            ("nonkey_release_variant_ended_by_release_of:mouse-button", 4_000),
+            ("nonkey_release_variant_ended_by_release_of:mouse-button-tap", 4_000),
+            ("nonkey_release_variant_ended_by_release_of:mouse-wheel", 4_000),
+            ("nonkey_release_variant_ended_by_release_of:mouse-move", 4_000),
+            ("nonkey_release_variant_ended_by_release_of:unicode", 4_000),
+            ("nonkey_release_variant_ended_by_release_of:arbitrary-code", 4_000),
+            ("nonkey_release_variant_ended_by_release_of:caps-word", 4_000),
+            ("nonkey_release_variant_ended_by_release_of:unmod", 4_000),
+            ("nonkey_release_variant_ended_by_release_of:layer-while-held", 4_000),
+            ("nonkey_release_variant_ended_by_release_of:layer-switch", 4_000),
+            ("nonkey_release_variant_ended_by_release_of:no-op", 4_000),
+            ("nonkey_release_variant_ended_by_release_of:macro", 4_000),
+            ("nonkey_release_variant_ended_by_release_of:output-chord", 4_000),
+            ("nonkey_release_variant_ended_by_release_of:release-key", 4_000),
+            ("nonkey_later_follower:mouse-button", 100_000),
+            ("nonkey_later_follower:unicode", 100_000),
+            ("nonkey_later_follower:arbitrary-code", 100_000),
+            ("nonkey_later_follower:plain", 1_000_000),
+            ("nonkey_one_shot_of:key", 500),
+            ("nonkey_one_shot_of:layer", 500),
+            ("nonkey_one_shot_of:chord", 500),
+            ("nonkey_variant:one-shot-press", 400),
+            ("nonkey_variant:one-shot-release", 400),
+            ("nonkey_variant:one-shot-press-pcancel", 400),
+            ("nonkey_variant:one-shot-release-pcancel", 400),
         ]
     }
     fn exhaustive(&self, _ctx: &Ctx) -> bool {
